@@ -585,15 +585,24 @@ pub fn run(tier: Tier) -> RunOutcome {
     // ---- hard sink fault at a chosen call: accepted bytes are a prefix of R4
     if verbose && calls > 0 && chance("hard", 1, 2) {
         let at = choose("hard_at", calls);
-        let fault = match choose("hard_kind", 4) {
+        let kind = choose("hard_kind", 5);
+        let fault = match kind {
             0 => SinkFault::Hard(std::io::ErrorKind::BrokenPipe),
             1 => SinkFault::Hard(std::io::ErrorKind::StorageFull),
             2 => SinkFault::Hard(std::io::ErrorKind::Other),
             _ => SinkFault::ZeroLen,
         };
-        let hplan = SinkPlan {
-            hard_at: Some((at, fault)),
-            ..plan.clone()
+        let hplan = if kind == 4 {
+            // a failing flush (the table header flushes the stream) instead of a failing write
+            SinkPlan {
+                flush_err_at: Some(choose("flush_at", flushes.max(1))),
+                ..plan.clone()
+            }
+        } else {
+            SinkPlan {
+                hard_at: Some((at, fault)),
+                ..plan.clone()
+            }
         };
         with_sim(|s| s.clocks[0] = Clock::new(profile.clone()));
         let rh = exec_history_to(4, &prob, &settings, &ops, true, &Target::Stream(hplan));
